@@ -22,6 +22,10 @@ What the generator guarantees (so that model and implementation must agree token
   earlier operation of the case touched: the model runs with the replacement oracle "drop every
   unreferenced entry at each miss", the real cache keeps entries, and a failure only strikes on
   a miss -- on untouched blocks both sides miss;
+* once an operation carries an mmap failure bit, no later operation of the case touches the
+  mmap blocks of its range: the failed mapping stays cached as an unreferenced MAP_FAILED
+  entry that answers ERR_SYSTEM until the replacement drops it -- when that happens is the
+  real cache's choice, which the model's replacement oracle does not follow;
 * positions stay far below 2^63 (off_t overflow is outside the model), except for one fixed
   probe of the guard at the top of fcache_get_chunk;
 * handles held by G are mostly kept below cap, sometimes not (BUSY paths).
@@ -76,7 +80,16 @@ def gen_case(rng, maxops=10):
     # failures are only comparable on untouched blocks: put them early, in some cases
     fail_budget = rng.choice([0, 0, 1, 2]) if rng.random() < 0.5 else 0
 
+    poisoned = set()         # mmap blocks that may hold a cached MAP_FAILED
+
     def pick_range(within):
+        for _ in range(20):
+            pos, ln = pick_range1(within)
+            if not (blocks(pos, ln) & poisoned):
+                return pos, ln
+        return None, None
+
+    def pick_range1(within):
         pos = rng.choice(poss)
         r = rng.random()
         if r < 0.08:
@@ -110,12 +123,18 @@ def gen_case(rng, maxops=10):
             if len(held) >= MAXHELD:
                 continue
             pos, _ = pick_range(rng.random() < 0.85)
+            if pos is None:
+                continue
+            if blocks(pos, 1) & poisoned:
+                continue
             mf = rf = "-"
             if fail_budget and not (blocks(pos, 1) & touched) and rng.random() < 0.6:
                 fail_budget -= 1
                 mf, rf = _bits(rng, 1, 0.5), _bits(rng, 1, 0.5)
             ops.append("G:%x:%s:%s" % (pos, mf, rf))
             touched |= blocks(pos, 1)
+            if mf != "-":
+                poisoned |= blocks(pos, 1)
             held.append(nhandles)      # if the get fails the handle number is reused: harmless
             nhandles += 1
         elif k < 0.40:
@@ -126,6 +145,8 @@ def gen_case(rng, maxops=10):
             ops.append("P:%x" % h)
         elif k < 0.65:
             pos, ln = pick_range(rng.random() < 0.8)
+            if pos is None:
+                continue
             mf = rf = "-"
             if fail_budget and not (blocks(pos, ln) & touched) and rng.random() < 0.7:
                 fail_budget -= 1
@@ -133,8 +154,12 @@ def gen_case(rng, maxops=10):
                 mf, rf = _bits(rng, n, 0.3), _bits(rng, n, 0.3)
             ops.append("R:%x:%x:%s:%s" % (pos, ln, mf, rf))
             touched |= blocks(pos, ln)
+            if mf != "-":
+                poisoned |= blocks(pos, ln)
         elif k < 0.95:
             pos, ln = pick_range(rng.random() < 0.8)
+            if pos is None:
+                continue
             mf = rf = al = "-"
             if rng.random() < 0.12:
                 al = _bits(rng, 2, 0.5)               # malloc failures do not depend on hits
@@ -145,6 +170,8 @@ def gen_case(rng, maxops=10):
             hold = rng.random() < 0.08 and len(chunks) < 2
             ops.append("%s:%x:%x:%s:%s:%s" % ("H" if hold else "K", pos, ln, mf, rf, al))
             touched |= blocks(pos, ln)
+            if mf != "-":
+                poisoned |= blocks(pos, ln)
             if hold:
                 chunks.append((nchunks, ln // PGSZ + 1))
                 nchunks += 1
